@@ -4,7 +4,9 @@
 (*                                                                         *)
 (* A run-time value is abstracted by its *type tag*: a sequence of strings *)
 (*   <<"int">> <<"float">> <<"bool">> <<"str">> <<"none">> <<"fn">>        *)
-(*   <<"list", e1, .., en>>   <<"tuple", e1, .., en>>   (ei primitive)     *)
+(*   <<"list", e1, .., en>>   <<"tuple", e1, .., en>>                      *)
+(* (ei the head of the element: a nested sequence is kept opaque - taking  *)
+(* it out again is "unsup")                                                *)
 (* The *Tag operators give the result head for operand heads (this is what *)
 (* a truthful type_inference.Resolver answers - vf/c19_export.py builds    *)
 (* its resolver from the dump of these operators, and every entry is       *)
@@ -25,6 +27,7 @@ UnOps   == {"not", "neg"}
 Err(k)  == <<"!", k>>
 IsErr(t) == t[1] = "!"
 IsPrim(t) == Len(t) = 1 /\ t[1] \in Prims
+ElemOK(t) == t[1] \in Prims \cup Seqs \cup {"none"}     \* what a list / tuple display may contain
 
 NumJoin(a, b) == IF "float" \in {a, b} THEN "float" ELSE "int"
 
@@ -71,12 +74,14 @@ UnVal(op, ta) == LET h == UnTag(op, ta[1]) IN IF h = "TypeError" THEN Err("TypeE
 
 (* ---- subscript with a constant index k (0-based) ------------------------ *)
 SubVal(ta, k) ==
-  IF ta[1] \in Seqs THEN (IF k + 2 <= Len(ta) THEN <<ta[k + 2]>> ELSE Err("IndexError"))
+  IF ta[1] \in Seqs THEN (IF k + 2 > Len(ta) THEN Err("IndexError")
+                          ELSE IF ta[k + 2] \in Seqs THEN Err("unsup") ELSE <<ta[k + 2]>>)
   ELSE IF ta[1] = "str" THEN Err("unsup")
   ELSE Err("TypeError")
 
 (* ---- iteration (for loops, unpacking): the element tags ----------------- *)
-IterKind(ta) == IF ta[1] \in Seqs THEN "ok" ELSE IF ta[1] = "str" THEN "unsup" ELSE "TypeError"
+IterKind(ta) == IF ta[1] \in Seqs THEN (IF \E i \in 2..Len(ta) : ta[i] \in Seqs THEN "unsup" ELSE "ok")
+                ELSE IF ta[1] = "str" THEN "unsup" ELSE "TypeError"
 Elems(ta)    == [i \in 1..(Len(ta) - 1) |-> <<ta[i + 1]>>]
 
 (* ---- does a claimed set of types cover a run-time tag ------------------- *)
